@@ -19,12 +19,14 @@ import (
 	spb "google.golang.org/genproto/googleapis/rpc/status"
 	"google.golang.org/grpc"
 	"google.golang.org/grpc/codes"
+	"google.golang.org/grpc/metadata"
 	"google.golang.org/grpc/status"
 	"google.golang.org/protobuf/encoding/protodelim"
 	"google.golang.org/protobuf/encoding/protojson"
 	"google.golang.org/protobuf/proto"
 	"google.golang.org/protobuf/reflect/protoreflect"
 	"google.golang.org/protobuf/types/dynamicpb"
+	"google.golang.org/protobuf/types/known/anypb"
 	"google.golang.org/protobuf/types/known/wrapperspb"
 	"larking.io/api/testpb"
 	"larking.io/larking"
@@ -44,6 +46,8 @@ type c05Env struct {
 	msg     string
 	details bool
 	k       int
+	flags   string // h: the handler sends its header explicitly first; u: the detail is of a type the server does not know;
+	// t: the handler waits until the call's deadline has passed before it returns its own status
 }
 
 var c05env *c05Env
@@ -68,6 +72,12 @@ func c05Setup() *c05Env {
 			return nil
 		}
 		st := status.New(codes.Code(e.code), e.msg)
+		if e.details && strings.Contains(e.flags, "u") {
+			// a detail whose message type is not linked into the server (what a proxied backend may return)
+			p := st.Proto()
+			p.Details = append(p.Details, &anypb.Any{TypeUrl: "type.googleapis.com/acme.billing.v1.QuotaInfo", Value: []byte{0x0a, 0x03, 'a', 'b', 'c'}})
+			return status.FromProto(p).Err()
+		}
 		if e.details {
 			st2, err := st.WithDetails(wrapperspb.String("detail"))
 			if err != nil {
@@ -77,6 +87,17 @@ func c05Setup() *c05Env {
 		}
 		return st.Err()
 	}
+	before := func(ctx context.Context, sendHeader func(metadata.MD) error) {
+		if strings.Contains(e.flags, "h") {
+			sendHeader(metadata.Pairs("x-c05", "1")) //nolint
+		}
+		if strings.Contains(e.flags, "t") {
+			select {
+			case <-ctx.Done():
+			case <-time.After(2 * time.Second):
+			}
+		}
+	}
 	reply := func(out protoreflect.MessageDescriptor, i int) proto.Message {
 		m := dynamicpb.NewMessage(out)
 		m.Set(out.Fields().ByName("text"), protoreflect.ValueOfString(fmt.Sprintf("reply-%d", i)))
@@ -84,6 +105,7 @@ func c05Setup() *c05Env {
 	}
 	impl := &dynImpl{
 		Unary: func(ctx context.Context, method string, req proto.Message, out protoreflect.MessageDescriptor) (proto.Message, error) {
+			before(ctx, func(md metadata.MD) error { return grpc.SendHeader(ctx, md) })
 			if err := mkErr(); err != nil {
 				return nil, err
 			}
@@ -93,6 +115,7 @@ func c05Setup() *c05Env {
 			if err := ss.RecvMsg(dynamicpb.NewMessage(in)); err != nil {
 				return err
 			}
+			before(ss.Context(), ss.SendHeader)
 			for i := 0; i < e.k; i++ {
 				if err := ss.SendMsg(reply(out, i)); err != nil {
 					return err
@@ -143,7 +166,9 @@ func c05Run(o *out, input string) {
 	full := "/verif.c05.Esvc/Unary"
 	// "+<n>" after the shape: the request names a media type no codec is registered under
 	// "~s" after the shape: the mux with a small MaxSendMessageSize (in-process protocols only)
-	shapeAll, small := strings.CutSuffix(f[6], "~s")
+	f6, flags, _ := strings.Cut(f[6], "^")
+	e.flags = flags
+	shapeAll, small := strings.CutSuffix(f6, "~s")
 	e.mux = e.muxBig
 	if small {
 		e.mux = e.muxSend
@@ -257,6 +282,9 @@ func c05Run(o *out, input string) {
 		r := httptest.NewRequest("POST", full, bytes.NewReader(grpcFrame(payload)))
 		r.ProtoMajor, r.ProtoMinor = 2, 0
 		r.Header.Set("Content-Type", ct)
+		if strings.Contains(e.flags, "t") {
+			r.Header.Set("Grpc-Timeout", "30m")
+		}
 		w, p := serveRec(e.mux, r)
 		if p != "" {
 			o.emit(input, "panic")
@@ -305,6 +333,9 @@ func c05Run(o *out, input string) {
 		}
 		r := httptest.NewRequest("POST", full, body)
 		r.Header.Set("Content-Type", ct)
+		if strings.Contains(e.flags, "t") {
+			r.Header.Set("Grpc-Timeout", "30m")
+		}
 		w, p := serveRec(e.mux, r)
 		if p != "" {
 			o.emit(input, "panic")
@@ -410,6 +441,20 @@ func c05Gen(o *out, r *rng, tier string) {
 			}
 			if p == "http-json" && c != 0 { // (a success reply under a media type without a codec is C04's business)
 				emit(p, c, "msg", c%2 == 0, 0, fmt.Sprintf("unary+%d", 1+c%3))
+			}
+		}
+		// the handler sends its header explicitly before it fails; a detail of a type the server does not know (binary
+		// reports carry it verbatim); the handler's own status after the call's deadline has passed
+		for _, c := range []uint32{0, 5, 9, 13} {
+			emit(p, c, "after SendHeader", c == 9, 0, "unary^h")
+			if p != "twirp" {
+				emit(p, c, "after SendHeader", false, int(c%3), "stream^h")
+			}
+			if p == "http-proto" && c != 0 {
+				emit(p, c, "foreign detail", true, 0, "unary^u")
+			}
+			if (p == "grpc" || p == "web" || p == "web-text") && c != 0 {
+				emit(p, c, "own status after the deadline", c == 5, 0, "unary^t")
 			}
 		}
 		// every message with two codes
